@@ -89,3 +89,50 @@ func TestGoDeterministic(t *testing.T) {
 		}
 	}
 }
+
+// A goroutine simrt does not schedule (here: a plain `go`) runs instrumented code while a
+// simulated run is active: every seam must be the plain operation for it.
+func TestForeignGoroutine(t *testing.T) {
+	for seed := uint64(1); seed < 30; seed++ {
+		var mu sync.Mutex
+		shared := 0
+		stop := make(chan struct{})
+		done := make(chan struct{})
+		r := Run(Config{Seed: seed, Sched: SchedRandom, SwitchProb: 0.3, MaxSteps: 1000000}, func() {
+			go func() { // foreign
+				defer close(done)
+				for {
+					select {
+					case <-stop:
+						return
+					default:
+					}
+					Yield(9)
+					Lock(mu.TryLock, mu.Lock)
+					shared++
+					mu.Unlock()
+					Mix("foreign")
+				}
+			}()
+			for i := 0; i < 200; i++ {
+				Yield(1)
+				Lock(mu.TryLock, mu.Lock)
+				shared++
+				Yield(2)
+				mu.Unlock()
+			}
+		}, func() {
+			for i := 0; i < 200; i++ {
+				Yield(3)
+				Lock(mu.TryLock, mu.Lock)
+				shared++
+				mu.Unlock()
+			}
+		})
+		close(stop)
+		<-done
+		if r.Deadlock || r.StepCap {
+			t.Fatalf("seed %d: %+v", seed, r)
+		}
+	}
+}
